@@ -373,9 +373,9 @@ var internalKinds = map[string]bool{
 }
 
 var userKinds = map[string]bool{
-	"/band.tss.v1beta1.TextSignatureOrder":            true,
-	"/band.oracle.v1.OracleResultSignatureOrder":      true,
-	"/band.feeds.v1beta1.FeedsSignatureOrder":         true,
+	"/band.tss.v1beta1.TextSignatureOrder":       true,
+	"/band.oracle.v1.OracleResultSignatureOrder": true,
+	"/band.feeds.v1beta1.FeedsSignatureOrder":    true,
 }
 
 func runInternal(e *env, t tally) {
